@@ -75,7 +75,14 @@ def run(ctx):
             tmin = 10 ** ctx.rng.uniform(-6, -1)
         if ctx.rng.random() < 0.3:
             tmin = ctx.rng.randint(1, 50)      # as typed in a parameter file: `minimum_transmissivity_m2_d: 7`
-        T = tm.SplineTransmissivity(list(zs), list(ks), tmin)
+        try:
+            T = tm.SplineTransmissivity(list(zs), list(ks), tmin)
+        except Exception as e:  # noqa
+            ctx.case(("c15", tuple(zs), tuple(ks)), True)
+            ctx.violation("impl-violation", "c15Holds", {"input": {"zeta_knots_mm": zs, "K_knots_km_d": ks, "minimum_transmissivity_m2_d": tmin},
+                          "impl": repr(e)[:200], "oracle": {"name": "c15Holds", "result": False,
+                                                            "witness": {"why": "the transmissivity cannot be constructed", "exception": repr(e)[:200]}}})
+            continue
         lo, hi = zs[0], zs[-1]
         levels = sorted({lo - 100.0, lo - 1e-9, lo, hi} | set(zs) | {ctx.rng.uniform(lo, hi) for _ in range(8)}
                         | {np.nextafter(z, -np.inf) for z in zs[1:]} | {np.nextafter(z, np.inf) for z in zs[:-1]})
@@ -114,6 +121,8 @@ def run(ctx):
         if not same_f:
             ctx.corr_break(ob_f, {"input": dict(inp0, levels=levels), "float": mf, "decimal": m})
         wit = None
+        if len(arr) != len(levels):
+            wit = {"why": "an array of levels gives an array of another length", "levels": len(levels), "values": len(arr)}
         for z, s, a, mv in zip(levels, scal, arr, m):
             ctx.case(("c15", tuple(zs), tuple(ks), z), z > lo)
             if s != a:
@@ -125,6 +134,27 @@ def run(ctx):
                        "closed_form": mv}
             if wit:
                 break
+        if wit is None:
+            # levels as they come out of a logger file stored in single precision (numpy.float32 scalars), as Python
+            # ints and as numpy integers: the value is that of the real number the argument denotes
+            for z in levels[::3]:
+                for conv in (np.float32, np.float64):
+                    zc = conv(z)
+                    if float(zc) > hi:
+                        continue
+                    try:
+                        v = float(T(zc))
+                    except Exception as e:  # noqa
+                        wit = {"why": "raises for a level given as %s" % conv.__name__, "level": float(zc), "exception": repr(e)[:200]}
+                        break
+                    ref = float(T(float(zc)))
+                    ctx.case(("c15-dtype", tuple(zs), tuple(ks), float(zc), conv.__name__), True)
+                    if abs(v - ref) > 1e-10 * max(abs(ref), tmin):
+                        wit = {"why": "the value depends on the floating-point width in which the same level is passed",
+                               "level": float(zc), "as_" + conv.__name__: v, "as_float": ref}
+                        break
+                if wit:
+                    break
         if wit is None:
             for (z0, s0), (z1, s1) in zip(zip(levels, scal), list(zip(levels, scal))[1:]):
                 if s1 < s0 - 1e-7 * max(abs(s0), tmin):
